@@ -69,6 +69,28 @@ func trickyContents() []namedBytes {
 	}
 }
 
+// signingTimeIsDER: DER constrains the value form of a signing time: UTCTime "YYMMDDHHMMSSZ" (or
+// GeneralizedTime "YYYYMMDDHHMMSSZ"): seconds present, no fraction, no offset but Z.
+func signingTimeIsDER(g *refp7.Signer) (bool, string) {
+	for _, a := range g.Attrs {
+		if !bytes.Equal(a.OID, refp7.OIDSigningTime) {
+			continue
+		}
+		for _, v := range a.Values {
+			ok := (v.Tag == 0x17 && len(v.Val) == 13 || v.Tag == 0x18 && len(v.Val) == 15) && v.Val[len(v.Val)-1] == 'Z'
+			for _, ch := range v.Val[:max(len(v.Val)-1, 0)] {
+				if ch < '0' || ch > '9' {
+					ok = false
+				}
+			}
+			if !ok {
+				return false, string(v.Val)
+			}
+		}
+	}
+	return true, ""
+}
+
 type namedBytes struct {
 	name string
 	b    []byte
